@@ -105,7 +105,8 @@ def rand_op(rng, j, nn=6, weights=None, force=None):
                     seen.add(it["id"])
                     u.append(it)
             its = u
-        return mkop(name, fmt=fmt, items=its, a=rand_attr(rng))
+        odd = fmt in (3, 4) and its and rng.random() < 0.08
+        return mkop(name, fmt=fmt, items=its, a=rand_attr(rng), b2=bool(odd))
     if name == "add_weighted_edges_from":
         its = [item(m=rand_members(rng, nn, allow_none=False), w=[0, rng.randrange(1, 5)])
                for _ in range(rng.randrange(0, 3))]
